@@ -874,10 +874,10 @@ def honesty_faults(part, c, ci, oname, order, le, vname, vm, exe, rng, tier):
         if isinstance(clean, common.Crash):
             continue
         N = Obs(clean).calls
-        # exhaustive enumeration only where one call has at most 25000 checked statuses (bn-level
+        # exhaustive enumeration only where one call has at most 45000 checked statuses (bn-level
         # verifiers and the signer on secp112r1); the byte-level verifiers spend ~10^5 more inside the
         # public-key validation and stay stride-sampled
-        everything = (not quick) and small and N <= 25000
+        everything = (not quick) and small and N <= 45000
         common.part_count(part, "fault_positions_total", N)
         for p in _positions(N, want, rng, everything):
             cases.append(mk(p))
@@ -955,6 +955,8 @@ def run(tier):
         # failpoint enumeration: one variant per (curve, order), rotating over the variants
         # (N is 10^4..2*10^5 checked statuses per call, so positions are stride-sampled)
         fv = {"be": names[ci % len(names)], "le": names[(ci + 2) % len(names)]}
+        if tier == "thorough" and curves[ci].name == "secp112r1" and "t64-chk" in exes:
+            fv = {"be": "t64-chk", "le": "t64-chk"}     # the exhaustive enumeration runs in the suite's configuration
         for oi in range(len(ORDERS)):
             for g in mine:
                 jobs.append({"ci": ci, "oi": oi, "tier": tier, "exes": {v: exes[v] for v in g}, "meta": meta,
@@ -972,7 +974,7 @@ def run(tier):
         report.extra["variant_restrictions"] = "8-bit-digit variant runs on curves <= 256 bit only (cost ~25x)"
     report.extra["fault_enumeration"] = (
         "per (curve, byte order): one build variant; positions stride-sampled over the N checked statuses of one call "
-        "(quick ~14-20 per plan, thorough 40-100 per plan and ALL positions of the plans with N <= 25000 on secp112r1)")
+        "(quick ~14-20 per plan, thorough 40-100 per plan and ALL positions of the plans with N <= 45000 on secp112r1 in the suite's configuration)")
     if report.extra["fault_positions_hit"] == 0:
         report.inconclusive.append("failpoint never fired")
     if report.extra.get("sign_equal_reference", 0) == 0:
